@@ -194,6 +194,9 @@ class TransactionalizedFIFO(Elaboratable):
         with m.If(self.read_discard):
             m.d.sync += current_read_pointer.eq(committed_read_pointer)
 
+            # ... and fetch from that position, so read_data is correct in the very next cycle.
+            m.d.comb += read_port.addr.eq(committed_read_pointer)
+
 
         #
         # FIFO status.
